@@ -8,6 +8,8 @@ Line protocol of area `total` (property C02).
 
 * `total.m.<decoder> bytes=<hex> …` (verdict): the checked-index model's outcome class and
   decoded value, to be compared with the real decoder's.
+* `total.sites name=<func>` (verdict): the regenerated site/guard inventory of a modelled function
+  compared with lean/SfntV/Tie/<func>.json by the extractor; the expected answer is `match`.
 * every other `total.<decoder> …` line (direct predicate): the property predicate "returns a
   value or an error, within the allocation bound" needs no model; the expected answer is the
   constant `total`, the Go side answers with the panic site / allocation figure otherwise.
@@ -51,6 +53,8 @@ def showOpt : Option Nat → String
   | some n => toString n
 
 def handle (op : String) (fs : List (String × String)) : String :=
+  -- the site inventory of every modelled function must match its committed expectation
+  if op == "total.sites" then "match" else
   if !op.startsWith "total.m." then "total" else
   match (getField fs "bytes").bind fromHex with
   | none => "bad-case"
